@@ -4,8 +4,8 @@ import PV.Model.Eval
 /-
   C13.  Models of the four translation paths out of / into Python code.
 
-    * `strG`, `compileStr` : `pymbolic.compiler.CompileMapper` = the generic stringifier with a
-                             different constant printer (`repr`, no sign parenthesisation).  `strG` is
+    * `strG`, `compileStr` : `pymbolic.compiler.CompileMapper` = the generic stringifier with its
+                             own constant printer (`repr` + the base class's sign parenthesisation).  `strG` is
                              the stringifier parameterised by the constant printer; `strG S
                              (constPieces S) = strE S` is proved in PV/Proofs/Compile.lean, so the
                              copy below is the C06 model (tied to the real printer by
@@ -23,8 +23,10 @@ namespace PV
 
 /-! ## 1. `CompileMapper` -/
 
-/-- `CompileMapper.map_constant`: `repr(c)`, never parenthesised -/
-def constPiecesRepr (c : Const) (_enclosing : Nat) : Except SErr Pieces :=
+/-- `CompileMapper.map_constant` BEFORE the repair (property=C13, `compile:Power>negative-int`):
+`repr(c)`, never parenthesised.  Kept only for the witness `PV.C13.compile_neg_base_source_cex`
+(what the defect was). -/
+def constPiecesReprBare (c : Const) (_enclosing : Nat) : Except SErr Pieces :=
   match c with
   | .int n =>
     if n < 0 then pure [sy "-", .tok (.int n.natAbs)] else pure [.tok (.int n.toNat)]
@@ -33,6 +35,28 @@ def constPiecesRepr (c : Const) (_enclosing : Nat) : Except SErr Pieces :=
     if d = 0 then throw .unsupported            -- inf / nan print as identifiers
     else if r.startsWith "-" then pure [sy "-", .tok (.flt (r.drop 1).toString (-n) d)]
     else pure [.tok (.flt r n d)]
+  | .str _ => throw .foreign
+  | .none => throw .foreign
+
+/-- `CompileMapper.map_constant`: `result = repr(c)`, then the sign parenthesisation of the base
+class: parenthesised when the text contains a sign and the context binds tighter than a sum
+(`repr` and `str` of an int / bool / float are the same text) -/
+def constPiecesRepr (S : PrintPrec) (c : Const) (enclosing : Nat) : Except SErr Pieces :=
+  match c with
+  | .int n =>
+    if n < 0 then
+      let result := [sy "-", .tok (.int n.natAbs)]
+      pure (if enclosing > S.sum then parens result else result)
+    else pure [.tok (.int n.toNat)]
+  | .bool b => pure [.tok (if b then .tTrue else .tFalse)]
+  | .flt r n d =>
+    if d = 0 then throw .unsupported            -- inf / nan print as identifiers
+    else
+      let neg := r.startsWith "-"
+      let result : Pieces := if neg then [sy "-", .tok (.flt (r.drop 1).toString (-n) d)]
+                             else [.tok (.flt r n d)]
+      let signed := neg || r.contains '+' || r.contains '-'
+      pure (if signed && enclosing > S.sum then parens result else result)
   | .str _ => throw .foreign
   | .none => throw .foreign
 
@@ -162,7 +186,8 @@ def strGSliceL (S : PrintPrec) (cf : Const → Nat → Except SErr Pieces) :
 end
 
 /-- `CompileMapper()(expr, PREC_NONE)` as pieces -/
-def compilePieces (S : PrintPrec) (e : Expr) : Except SErr Pieces := strG S constPiecesRepr e S.none
+def compilePieces (S : PrintPrec) (e : Expr) : Except SErr Pieces :=
+  strG S (constPiecesRepr S) e S.none
 
 /-- the source text of the compiled expression -/
 def compileStr (S : PrintPrec) (e : Expr) : Except SErr String := (compilePieces S e).map render
